@@ -202,6 +202,26 @@ def oracle_c01(ctx):
                     res.violation('%s.%s accepts %r but does not return it' % (meta['name'], a['name'], v),
                                   {'fn': 'c01_accepted_case', 'args': pyrepr((meta['key'], vals, i))},
                                   bad[0] if k == 'ok' else 'oracle runs', bad[1] if k == 'ok' else repr(bad))
+    # names that mean something to a broker, in every name argument, with every combination of the flag arguments
+    for meta in metas:
+        cls = commands.INDEX_MAPPING.get(meta['key'])
+        named = [i for i, a in enumerate(meta['args']) if any(ru.get('attr') == a['name'] and ru['kind'] == 'regex' for ru in meta['rules'])]
+        if cls is None or not named:
+            continue
+        bits = [i for i, a in enumerate(meta['args']) if a['ty'] == 'bit' and not any(ru.get('attr') == a['name'] for ru in meta['rules'])]
+        combos = list(itertools.product([False, True], repeat=len(bits)))
+        for nm in (G.WELL_KNOWN_NAMES if ctx.thorough else g.r.sample(G.WELL_KNOWN_NAMES, 5) + ['amq.rabbitmq.reply-to', 'amq.gen-JzTY20BRgKO']):
+            for combo in combos:
+                vals = lanes.method_vals_ok(ctx, cls, meta)
+                for i in named:
+                    lim = min([ru['n'] for ru in meta['rules'] if ru.get('attr') == meta['args'][i]['name'] and ru['kind'] == 'maxLen'] or [255])
+                    vals[i] = nm[:lim]
+                for i, bv in zip(bits, combo):
+                    vals[i] = bv
+                res.case(pyrepr((meta['key'], vals)), tag='meaningful names')
+                bad = c01_case(meta['key'], vals, 1, False, b'')
+                if bad:
+                    res.violation('%s round trip' % meta['name'], {'fn': 'c01_case', 'args': pyrepr((meta['key'], vals, 1, False, b''))}, bad[0], bad[1])
     reps = 10 if ctx.thorough else 2
     for meta in metas:
         key = meta['key']
@@ -803,13 +823,36 @@ def oracle_c07(ctx):
 
 @replayer
 def c20_case(buf):
-    k, r = catching(frame.frame_parts, buf)
+    exp = (0, 0, None) if len(buf) < 7 else (buf[0], int.from_bytes(buf[1:3], 'big'), int.from_bytes(buf[3:7], 'big'))
+    # the buffer as a receive loop may hold it: bytes, a bytearray, a memoryview over either, a window into a larger buffer
+    views = [('bytes', buf), ('bytearray', bytearray(buf)), ('memoryview', memoryview(buf)), ('memoryview of a bytearray', memoryview(bytearray(buf))),
+             ('window into a larger buffer', memoryview(b'\x00\x00' + buf + b'\xff')[2:2 + len(buf)])]
+    for label, b in views:
+        k, r = catching(frame.frame_parts, b)
+        if k != 'ok':
+            return ('never raises (%s)' % label, repr(r))
+        if tuple(r) != exp:
+            return ('%r (%s)' % (exp, label), r)
+    return None
+
+
+@replayer
+def c20_big_case(n, fill):
+    """an encoder-produced frame with a payload of n bytes: the peek says size + 8 == its length, and the decoder accepts
+    exactly those bytes"""
+    content = bytes([fill]) * n
+    k, b = catching(frame.marshal, body.ContentBody(content), 3)
     if k != 'ok':
-        return ('never raises', repr(r))
-    if len(buf) < 7:
-        return None if tuple(r) == (0, 0, None) else ((0, 0, None), r)
-    exp = (buf[0], int.from_bytes(buf[1:3], 'big'), int.from_bytes(buf[3:7], 'big'))
-    return None if tuple(r) == exp else (exp, r)
+        return None
+    t, c, sz = frame.frame_parts(b)
+    if (t, c, sz) != (3, 3, n) or len(b) != n + 8:
+        return ((3, 3, n), (t, c, sz))
+    k2, r = catching(frame.unmarshal, b)
+    if k2 != 'ok':
+        return ('the decoder accepts the %d-byte frame the peek announces' % len(b), repr(r))
+    if r[0] != len(b) or r[1] != 3 or not isinstance(r[2], body.ContentBody) or r[2].value != content:
+        return ((len(b), 3, 'ContentBody of %d bytes' % n), (r[0], r[1], type(r[2]).__name__, len(getattr(r[2], 'value', b''))))
+    return None
 
 
 def oracle_c20(ctx):
@@ -832,6 +875,15 @@ def oracle_c20(ctx):
         bad = c20_case(b)
         if bad:
             res.violation('frame_parts', {'fn': 'c20_case', 'args': pyrepr((b,))}, bad[0], bad[1])
+    # payload sizes with each bit of the size field set (the encoder sets no upper limit: up to 2^25 bytes here)
+    for kbit in (range(8, 26) if ctx.thorough else (8, 15, 16, 17, 20, 23, 24)):
+        for n in (2 ** kbit, 2 ** kbit + 1, 2 ** kbit - 1):
+            res.case('big %d' % n, tag='size bit %d' % kbit)
+            k, bad = catching(c20_big_case, n, 0xCE if kbit % 2 else 0x41)
+            if k != 'ok' or bad:
+                res.violation('peek / decoder disagree on a %d-byte body frame' % n, {'fn': 'c20_big_case', 'args': pyrepr((n, 0xCE if kbit % 2 else 0x41))},
+                              bad[0] if k == 'ok' else 'oracle runs', bad[1] if k == 'ok' else repr(bad))
+                break
     for f, ch, b in valid_frames(ctx, 1500 if ctx.thorough else 300, boundaries=True):
         if isinstance(f, header.ProtocolHeader):
             continue
